@@ -75,6 +75,15 @@ pub fn fam_for(tier: Tier, prop: &str) -> Vec<CaseSpec> {
         c.label = "units".into();
         v.push(c);
     }
+    // signed masses: every 9th configuration with a massive edge again with negative mass values
+    for i in 0..n0 {
+        if i % 9 == 2 && v[i].g.massive.iter().any(|m| *m) {
+            let mut c = v[i].clone();
+            c.mass_variant += 2;
+            c.label = "signed-mass".into();
+            v.push(c);
+        }
+    }
     if tier == Tier::Quick {
         // a few larger named graphs in the quick tier as well: kite (2 loops, 5 edges), 3-loop banana
         let extra = family(&FamOpts {
